@@ -543,6 +543,10 @@ def run(chk):
         raise failure[0]
     chk.validate("ProbeTrace", "ProbeTrace.cfg", probed, key_of=key_of, batch=chk.pick(150, 150), label="probed")
     chk.validate("ProbeTrace", "ProbeTrace.cfg", direct, key_of=key_of, batch=8000, label="small scope")
+    # beyond the property: the command-line tools (rig-ps, rig-iobuf, rig-counters, rig-info, rig-power, rig-discover,
+    # rig-boot) run in-process against simulated hosts and judged against Scripts.tla
+    from . import scripts
+    scripts.run_beyond(chk)
 
 
 def generate(chk, rng):
